@@ -151,8 +151,27 @@ fn check_cert(ctx: &mut Ctx, key: &SignedSecretKey, name: &str, with_messages: b
                 }
             }
             // issuer subpackets of the self signatures
-            for p in pk.iter().filter(|p| p.tag == 2) {
+            let mut last_sub: Option<RefPub> = None;
+            for p in pk.iter() {
+                if p.tag == 14 {
+                    last_sub = RefPub::parse_prefix(&p.body).map(|(r, _)| r);
+                }
+                if p.tag != 2 {
+                    continue;
+                }
                 check_issuer_subpackets(ctx, &p.body, &ref_fp, &ref_id, rprim.version, "self-signature", &replay);
+                // embedded primary key binding (back) signature: made by the subkey, so its issuer
+                // fields must name the subkey
+                if let (Ok(sig), Some(sub)) = (rfc::sig::parse_sig(&p.body), last_sub.as_ref()) {
+                    for area in [&sig.hashed, &sig.unhashed] {
+                        for sp in rfc::sig::parse_subpackets(area).unwrap_or_default() {
+                            if sp.typ == 32 {
+                                ctx.seen("embedded", "backsig-issuer");
+                                check_issuer_subpackets(ctx, &sp.body, &sub.fingerprint(), &sub.key_id(), sub.version, "embedded-back-signature", &replay);
+                            }
+                        }
+                    }
+                }
             }
         }
     }
@@ -168,6 +187,26 @@ fn check_cert(ctx: &mut Ctx, key: &SignedSecretKey, name: &str, with_messages: b
     }) {
         if let Ok(b) = sig.signature.to_bytes() {
             check_issuer_subpackets(ctx, &b, &ref_fp, &ref_id, rprim.version, "detached", &replay);
+        }
+    }
+    // third-party certification over another key's user id: issuer fields must name the signer
+    {
+        let other_spec = Spec::simple(rprim.version == 6, if rprim.version == 6 { Alg::Ed25519 } else { Alg::EcdsaP256 }, None);
+        let other = zoo::key(&other_spec, 77);
+        let other_pub = other.to_public_key();
+        if other.fingerprint() != key.fingerprint() {
+            let uid = pgp::packet::UserId::from_str(Default::default(), "Certified <c@example.org>").expect("uid");
+            let r = ctx.guarded("C13/third-party", || replay.clone(), || {
+                uid.sign_third_party(&mut rng, &key.primary_key, &Password::empty(), &other_pub.primary_key, pgp::packet::SignatureType::CertGeneric)
+            });
+            if let Some(Ok(su)) = r {
+                for sig in &su.signatures {
+                    if let Ok(b) = sig.to_bytes() {
+                        ctx.seen("embedded", "third-party-cert-issuer");
+                        check_issuer_subpackets(ctx, &b, &ref_fp, &ref_id, rprim.version, "third-party-certification", &replay);
+                    }
+                }
+            }
         }
     }
     // one pass signed message
